@@ -8,7 +8,7 @@ CLAIM = {
     "text": "Bounded model checking of the real block buffer sharing code (ubuf_block.h write/dup/splice/slice/delete/insert/append/"
             "resize, ubuf_block_common.h, ubuf_block_mem.c dup/splice/single/free, ubuf_mem_common.h shared refcount) against a model of "
             "memory AREAS with owner counts: a family of up to 4 handles grows from one 4-octet block by every listed sequence of "
-            "operations (dup, splice, delete creating a slice, insert, append, resize, free, write-map + store of a SYMBOLIC octet); after "
+            "operations (dup, splice, split, delete creating a slice, insert, append, resize, free, write-map + store of a SYMBOLIC octet); after "
             "every operation every live handle reads back exactly its model octets (so a write through one handle never shows through "
             "another, and structural operations never modify shared bytes), and a writable mapping is granted iff the addressed "
             "segment's area has exactly one owner, refused with UBASE_ERR_BUSY otherwise. Use-after-free / double free of areas are CBMC "
@@ -25,7 +25,8 @@ CLAIM = {
 CREATE = [(0, 0, 0, 0), (1, 0, 1, 2), (1, 0, 0, -1), (3, 0, 1, 1), (4, 0, 0, 0), (7, 0, 1, 0)]
 WRITES = [(2, h, o, 0) for h in (0, 1, 2) for o in (0, 1, 3)]
 OTHER = [(3, 0, 0, 1), (5, 0, 1, -1), (5, 0, 0, 2), (6, 0, 0, 0), (6, 1, 0, 0), (0, 1, 0, 0), (1, 1, 0, 1), (3, 1, 0, 1), (4, 1, 0, 0)]
-NAMES = ["dup", "splice", "write", "delete", "append", "resize", "free", "insert"]
+NAMES = ["dup", "splice", "write", "delete", "append", "resize", "free", "insert", "split"]
+SPLITS = [(8, 0, 1, 0), (8, 0, 2, 0), (8, 0, 5, 0)]
 
 
 def valid(seq):
@@ -36,7 +37,7 @@ def valid(seq):
             return False
         L = lens[h]
         slot = min(i for i in range(5) if i not in lens)
-        if k in (0, 1) and slot > 3:
+        if k in (0, 1, 8) and slot > 3:
             return False
         if k == 0:
             lens[slot] = L
@@ -65,13 +66,18 @@ def valid(seq):
                 if not (a == 0 and 1 <= b < L):
                     return False
                 lens[h] = b
+        elif k == 8:
+            if not (0 < a < L) or slot > 3:
+                return False
+            lens[slot] = L - a
+            lens[h] = a
         elif k == 6:
             del lens[h]
     return True
 
 
 def name(seq):
-    return "_".join("%s%d%s" % (NAMES[k], h, ("@%d" % a) if k in (2, 7) else (("@%d.%d" % (a, b)) if k in (1, 3, 5) else "")) for k, h, a, b in seq)
+    return "_".join("%s%d%s" % (NAMES[k], h, ("@%d" % a) if k in (2, 7, 8) else (("@%d.%d" % (a, b)) if k in (1, 3, 5) else "")) for k, h, a, b in seq)
 
 
 def build(tier):
@@ -79,9 +85,14 @@ def build(tier):
     allops = CREATE + WRITES + OTHER
     seqs = [[o] for o in allops] + [list(t) for t in itertools.product(allops, repeat=2)]
     # sharing created first, anything in the middle, a write last
-    seqs += [[c, m, w] for c in CREATE for m in (allops if not quick else CREATE + OTHER[:5]) for w in WRITES]
+    seqs += [[c, m, w] for c in CREATE for m in (allops if not quick else CREATE + OTHER[:2]) for w in WRITES]
     if not quick:
         seqs += [[c, m1, m2, w] for c in CREATE for m1 in CREATE + OTHER for m2 in OTHER + WRITES[:3] for w in WRITES[:6]]
+    # splits of multi-segment blocks followed by growth of the truncated head and accesses through both handles
+    grow = [(4, 0, 0, 0), (7, 0, 1, 0)]
+    after = [(4, 0, 0, 0), (4, 1, 0, 0), (2, 0, 0, 0), (2, 1, 0, 0), (6, 1, 0, 0), (6, 0, 0, 0)]
+    seqs += [[sp] for sp in SPLITS] + [[g, sp] for g in grow for sp in SPLITS] + [[g, sp, x] for g in grow for sp in SPLITS for x in after]
+    seqs += [[g, g2, sp, x, y] for g in grow for g2 in grow[:1] for sp in SPLITS for x in after[:2] for y in after[2:]]
     seqs = [s for s in seqs if valid(s)]
     seen, qs = set(), []
     for i, sq in enumerate(seqs):
